@@ -903,6 +903,8 @@ constexpr bool int_ok = std::is_integral_v<T> && sizeof(T) * 8 >= Bits && std::i
         ns::relation<__VA_ARGS__> ? 1 : 0, ns::equivalence_relation<__VA_ARGS__> ? 1 : 0, ns::strict_weak_order<__VA_ARGS__> ? 1 : 0);
 #define C15_X_INT(ns, t, bits, sg)  std::printf(" " #t "=%d", c15x::int_ok<ns::t, bits, sg> ? 1 : 0);
 
+#define C15_X_SI(ns, r)  std::printf(" " #r "=%lld/%lld", (long long)ns::r::num, (long long)ns::r::den);
+
 #define C15_X_SIDE(ns)                                                                                                 \
     static void put_x_##ns()                                                                                           \
     {                                                                                                                  \
@@ -964,6 +966,24 @@ constexpr bool int_ok = std::is_integral_v<T> && sizeof(T) * 8 >= Bits && std::i
         C15_X_INT(ns, int_fast16_t, 16, true) C15_X_INT(ns, int_fast32_t, 32, true) C15_X_INT(ns, int_fast64_t, 64, true) \
         C15_X_INT(ns, uint_fast8_t, 8, false) C15_X_INT(ns, uint_fast16_t, 16, false) C15_X_INT(ns, uint_fast32_t, 32, false) \
         C15_X_INT(ns, uint_fast64_t, 64, false)                                                                       \
+        C15_X_SI(ns, atto) C15_X_SI(ns, femto) C15_X_SI(ns, pico) C15_X_SI(ns, nano) C15_X_SI(ns, micro) C15_X_SI(ns, milli) \
+        C15_X_SI(ns, centi) C15_X_SI(ns, deci) C15_X_SI(ns, deca) C15_X_SI(ns, hecto) C15_X_SI(ns, kilo) C15_X_SI(ns, mega) \
+        C15_X_SI(ns, giga) C15_X_SI(ns, tera) C15_X_SI(ns, peta) C15_X_SI(ns, exa)                                     \
+        /* an incomplete class type, where the standard allows one */                                                  \
+        C15_X_B("is_class<Incomplete>", ns::is_class_v<Incomplete>) C15_X_B("is_union<Incomplete>", ns::is_union_v<Incomplete>) \
+        C15_X_B("is_enum<Incomplete>", ns::is_enum_v<Incomplete>) C15_X_B("is_void<Incomplete>", ns::is_void_v<Incomplete>) \
+        C15_X_B("is_object<Incomplete>", ns::is_object_v<Incomplete>) C15_X_B("is_compound<Incomplete>", ns::is_compound_v<Incomplete>) \
+        C15_X_B("is_const<Incomplete_const>", ns::is_const_v<Incomplete const>)                                       \
+        C15_X_B("is_pointer<Incomplete*>", ns::is_pointer_v<Incomplete*>)                                             \
+        C15_X_B("is_member_object_pointer<int_Incomplete::*>", ns::is_member_object_pointer_v<int Incomplete::*>)     \
+        C15_X_B("is_same<remove_cv_t<Incomplete_const>,Incomplete>", ns::is_same_v<ns::remove_cv_t<Incomplete const>, Incomplete>) \
+        C15_X_B("is_base_of<Incomplete,Incomplete>", ns::is_base_of_v<Incomplete, Incomplete>)                        \
+        C15_X_B("is_convertible<Incomplete*,void*>", ns::is_convertible_v<Incomplete*, void*>)                        \
+        C15_X_B("is_convertible<Incomplete&,Incomplete_const&>", ns::is_convertible_v<Incomplete&, Incomplete const&>) \
+        C15_X_TY("add_pointer_t<Incomplete>", ns::add_pointer_t<Incomplete>)                                          \
+        C15_X_TY("decay_t<Incomplete_const&>", ns::decay_t<Incomplete const&>)                                        \
+        C15_X_TY("add_rvalue_reference_t<Incomplete>", ns::add_rvalue_reference_t<Incomplete>)                        \
+        C15_X_TY("remove_extent_t<Incomplete[]>", ns::remove_extent_t<Incomplete[]>)                                  \
         std::printf(" byte=%d/%lu/%s max_align_t=%lu/%d", std::is_enum_v<ns::byte> ? 1 : 0, (unsigned long)sizeof(ns::byte), \
             enc<std::underlying_type_t<ns::byte>>().c_str(), (unsigned long)alignof(ns::max_align_t),                 \
             c15x::storage_ok<ns::max_align_t> ? 1 : 0);                                                                \
